@@ -11,7 +11,7 @@ use indexmap::IndexMap;
 use num_traits::{Signed, ToPrimitive};
 use proptest::prelude::*;
 use rooc::builder::{abs, all, any as any_of, max, min};
-use rooc::pipe::{AutoSolverPipe, CompilerPipe, LinearModelPipe, ModelPipe, PipeContext, PipeRunner, PipeableData, PreModelPipe};
+use rooc::pipe::{AutoSolverPipe, CompilerPipe, LinearModelPipe, MILPSolverPipe, ModelPipe, PipeContext, PipeRunner, PipeableData, PreModelPipe, RealSolver};
 use rooc::{
     auto_solver, Auto, BuilderConstraint, BuilderError, Constant, Expr, LinearModel, Linearizer, MILPValue, ModelBuilder, Primitive,
     RoocParser, RoocSolver, RoocSolverError, SolverError, Var,
@@ -337,7 +337,7 @@ impl Prop for C16 {
         serde_json::to_string(&format!("{} // consts {} order {}", c.text.text(), c.const_mode, c.order)).unwrap()
     }
     fn rule(&self) -> String {
-        "one generated model (typed grammar of C03, bounded domains, named / logic / arithmetic constraints, min / max / solve) realised through four doors: (1) ModelBuilder - variables via add_var, expressions via the std operator overloads (+ - * / unary -, & | ^ !), implies/iff methods and the abs/min/max/all/any helpers, constraints via with or with_all, objective before, after or between the constraints, optionally an extra declared-but-unused variable; (2) source text with constants inline, in a where block, or passed as Constants through the API, compiled with RoocParser + Linearizer; (3) PipeRunner [CompilerPipe, PreModelPipe, ModelPipe, LinearModelPipe, AutoSolverPipe]; (4) RoocSolver::solve_with_data_using(auto_solver). Oracle: text and pipe linear models identical; builder linear model identical to the text one row for row after dropping unused variables; all doors give the same verdict and optimal value; BuilderSolution var_value / numeric_value / value_of agree, eval(expr) equals the harness's exact evaluation at the solution, value() equals the objective there, the unused variable resolves inside its domain. The macro door (constraint!/expr!) is covered by the enumerated table of C16's macro stratum. Non-trivial = a logic and an arithmetic constraint, and an unused variable or a permuted call order. Distinct = distinct case text.".into()
+        "one generated model (typed grammar of C03, bounded domains, named / logic / arithmetic constraints, min / max / solve) realised through four doors: (1) ModelBuilder - variables via add_var, expressions via the std operator overloads (+ - * / unary -, & | ^ !), implies/iff methods and the abs/min/max/all/any helpers, constraints via with or with_all, objective before, after or between the constraints, optionally an extra declared-but-unused variable; (2) source text with constants inline, in a where block, or passed as Constants through the API, compiled with RoocParser + Linearizer; (3) PipeRunner [CompilerPipe, PreModelPipe, ModelPipe, LinearModelPipe, AutoSolverPipe], and the same chain ending in MILPSolverPipe and, for models without discrete variables, in RealSolver; (4) RoocSolver::solve_with_data_using(auto_solver). Oracle: text and pipe linear models identical; builder linear model identical to the text one row for row after dropping unused variables; all doors give the same verdict and optimal value; BuilderSolution var_value / numeric_value / value_of agree, eval(expr) equals the harness's exact evaluation at the solution, value() equals the objective there, the unused variable resolves inside its domain. The macro doors are covered by C16's macro stratum: the enumerated constraint!/expr! table and every declaration form of vars! (scalar and array, each domain keyword with and without bounds) compared with the domain it stands for. Non-trivial = a logic and an arithmetic constraint, and an unused variable or a permuted call order. Distinct = distinct case text.".into()
     }
     fn fixed_cases(&self, _tier: Tier) -> Vec<Case> {
         // order = 255 selects the macro-table stratum (one case that walks the whole table)
@@ -361,6 +361,10 @@ impl Prop for C16 {
     }
     fn check(&self, case: &Case) -> Outcome {
         if case.order == 255 {
+            let (vars_forms, vars_bad) = crate::props::macro_table::check_vars_macro();
+            if !vars_bad.is_empty() {
+                return Outcome::fail("vars-macro-declares-another-domain".to_string(), format!("{} of {vars_forms} declarations:\n{}", vars_bad.len(), vars_bad.join("\n")));
+            }
             let (n, bad) = crate::props::macro_table::check_all();
             if bad.is_empty() {
                 return Outcome::Pass { nontrivial: true, labels: vec![format!("macro-table:{n}")] };
@@ -488,6 +492,34 @@ fn check_inner(case: &Case) -> Outcome {
         }
         None => fails.push(("pipe-produced-no-linear-model".into(), ctx(format!("{pipe_verdict:?}")))),
     }
+    // ---- the other solver stages of the pipe door ----------------------------------------------
+    // same chain, last stage replaced: the MILP stage for every model, the real-valued stage for
+    // models without discrete variables (it is the stage a user picks to read shadow prices)
+    let continuous = lt.vars.iter().all(|v| !v.1.is_discrete());
+    let mut other_pipes: Vec<(&str, Verdict)> = vec![];
+    for (name, real) in [("pipe-milp", false), ("pipe-real", true)] {
+        if real && !continuous {
+            continue;
+        }
+        let last: Box<dyn rooc::pipe::Pipeable> = if real { Box::new(RealSolver::new()) } else { Box::new(MILPSolverPipe::new()) };
+        let runner = PipeRunner::new(vec![
+            Box::new(CompilerPipe::new()),
+            Box::new(PreModelPipe::new()),
+            Box::new(ModelPipe::new()),
+            Box::new(LinearModelPipe::new()),
+            last,
+        ]);
+        let v = match runner.run(PipeableData::String(src.clone()), &pipe_ctx) {
+            Ok(stages) => match stages.last() {
+                Some(PipeableData::MILPSolution(s)) => Verdict::Ok(s.value()),
+                Some(PipeableData::RealSolution(s)) => Verdict::Ok(s.value()),
+                _ => Verdict::Other("no solution stage".into()),
+            },
+            Err((rooc::pipe::PipeError::SolverError(se), _)) => solver_verdict(&se),
+            Err((other, _)) => Verdict::Other(other.to_string()),
+        };
+        other_pipes.push((name, v));
+    }
     // ---- verdicts --------------------------------------------------------------------------
     let text_verdict = match auto_solver(&text_lin) {
         Ok(s) => Verdict::Ok(s.value()),
@@ -508,7 +540,11 @@ fn check_inner(case: &Case) -> Outcome {
         Err(e) => Verdict::Other(e.to_string()),
     };
     let satisfy = matches!(m.obj, SObj::Satisfy);
-    for (name, v) in [("pipe", &pipe_verdict), ("one-shot", &oneshot_verdict), ("builder", &builder_verdict)] {
+    let mut doors: Vec<(&str, &Verdict)> = vec![("pipe", &pipe_verdict), ("one-shot", &oneshot_verdict), ("builder", &builder_verdict)];
+    for (name, v) in &other_pipes {
+        doors.push((name, v));
+    }
+    for (name, v) in doors {
         let ok = if satisfy {
             std::mem::discriminant(v) == std::mem::discriminant(&text_verdict)
         } else {
